@@ -945,10 +945,10 @@ def ind (i x : Nat) : Nat := if i = x then 1 else 0
 theorem count_cons' (x i : Nat) (l : List Nat) : (i :: l).count x = ind i x + l.count x := by
   simp only [List.count_cons, ind, beq_iff_eq]; omega
 
-theorem pushCap_small (x : Nat × Nat) (q : List (Nat × Nat)) (h : q.length < 10) : pushCap x q = q ++ [x] := by
+theorem pushCap_small (x : XItem) (q : List XItem) (h : q.length < 10) : pushCap x q = q ++ [x] := by
   unfold pushCap; rw [if_neg (by omega)]
 
-theorem XSock.sendIp_held (s : XSock) (i a : Nat) (h : s.queue.length < 10) (x : Nat) :
+theorem XSock.sendIp_held (s : XSock) (i : Nat) (a : Nat × Nat) (h : s.queue.length < 10) (x : Nat) :
     (s.sendIp i a).held.count x = s.held.count x + [i].count x := by
   unfold XSock.sendIp
   split
@@ -957,7 +957,7 @@ theorem XSock.sendIp_held (s : XSock) (i a : Nat) (h : s.queue.length < 10) (x :
   · simp only [XSock.held, pushCap_small _ _ h, List.map_append, List.count_append, List.map_cons, List.map_nil,
       List.append_assoc, List.cons_append, List.nil_append, count_cons', List.count_nil]; omega
 
-theorem XSock.sendIp_load (s : XSock) (i a : Nat) (h : s.queue.length < 10) :
+theorem XSock.sendIp_load (s : XSock) (i : Nat) (a : Nat × Nat) (h : s.queue.length < 10) :
     (s.sendIp i a).queue.length + (s.sendIp i a).pending.length ≤ s.queue.length + s.pending.length + 1 := by
   unfold XSock.sendIp
   split
@@ -970,9 +970,9 @@ theorem XSock.step_held (dns : Nat → Nat) (s : XSock) (ev : XEv) (h : s.queue.
   cases ev with
   | send i d =>
     cases d with
-    | ip a =>
-      exact ⟨XSock.sendIp_held s i a (by omega) x, XSock.sendIp_load s i a (by omega)⟩
-    | name hh =>
+    | ip a pp =>
+      exact ⟨XSock.sendIp_held s i (a, pp) (by omega) x, XSock.sendIp_load s i (a, pp) (by omega)⟩
+    | name hh pp =>
       constructor
       · simp only [XSock.step, XSock.held, XEv.sentId, List.map_append, List.count_append, List.map_cons, List.map_nil, count_cons', List.count_nil]; omega
       · simp [XSock.step, XEv.sentId]; omega
@@ -980,9 +980,9 @@ theorem XSock.step_held (dns : Nat → Nat) (s : XSock) (ev : XEv) (h : s.queue.
     simp only [XSock.step]
     split
     · rename_i hp; simp [XEv.sentId]
-    · rename_i i hh r hp
-      have h1 := XSock.sendIp_held { s with pending := r } i (dns hh) (by simp; omega) x
-      have h2 := XSock.sendIp_load { s with pending := r } i (dns hh) (by simp; omega)
+    · rename_i i hh pp r hp
+      have h1 := XSock.sendIp_held { s with pending := r } i (dns hh, pp) (by simp; omega) x
+      have h2 := XSock.sendIp_load { s with pending := r } i (dns hh, pp) (by simp; omega)
       constructor
       · rw [h1]
         simp only [XSock.held, hp, XEv.sentId, List.map_append, List.count_append, List.map_cons, count_cons', List.count_nil]
@@ -1027,9 +1027,9 @@ theorem XSock.run_held (dns : Nat → Nat) (evs : List XEv) (s : XSock)
               simp only [XSock.step]
               split
               · simp
-              · rename_i i hh r hp
-                have h1 := XSock.sendIp_held { s with pending := r } i (dns hh) (by simpa using hq) x
-                have h2 := XSock.sendIp_load { s with pending := r } i (dns hh) (by simpa using hq)
+              · rename_i i hh pp r hp
+                have h1 := XSock.sendIp_held { s with pending := r } i (dns hh, pp) (by simpa using hq) x
+                have h2 := XSock.sendIp_load { s with pending := r } i (dns hh, pp) (by simpa using hq)
                 constructor
                 · rw [h1]
                   simp only [XSock.held, hp, List.map_append, List.count_append, List.map_cons, count_cons', List.count_nil]
@@ -1237,5 +1237,118 @@ theorem opens_layers (L : A.Laws) (K : A.Key → Prop) (d : Dir) (kn : List (A.K
         · exact hpre q hq
         · subst hq; exact h1 ▸ hk
     · exact Or.inr ⟨hall, Opens.peel m k d' n x hop hk⟩
+
+/-! ### anonymizing endpoint: every packet handed to `send` is queued or sent, once, with its own destination -/
+
+theorem TEp.send_count (s : TEp) (ready : Bool) (x y : Nat × Nat) (h : s.queue.length < 100) :
+    ((s.send ready x).out ++ (s.send ready x).queue).count y = (s.out ++ s.queue).count y + [x].count y := by
+  unfold TEp.send
+  cases ready with
+  | true => simp only [if_true, List.append_nil, List.count_append, List.count_cons, List.count_nil]; omega
+  | false =>
+    have : pushCap100 x s.queue = s.queue ++ [x] := by unfold pushCap100; rw [if_neg (by omega)]
+    simp only [Bool.false_eq_true, if_false, this, List.count_append, List.count_cons, List.count_nil]; omega
+
+theorem TEp.send_queue_len (s : TEp) (ready : Bool) (x : Nat × Nat) (h : s.queue.length < 100) :
+    (s.send ready x).queue.length ≤ s.queue.length + 1 := by
+  unfold TEp.send
+  cases ready with
+  | true => simp
+  | false =>
+    have : pushCap100 x s.queue = s.queue ++ [x] := by unfold pushCap100; rw [if_neg (by omega)]
+    simp [this]
+
+theorem TEp.run_count (evs : List (Bool × (Nat × Nat))) (s : TEp) (h : s.queue.length + evs.length ≤ 100) (y : Nat × Nat) :
+    ((s.run evs).out ++ (s.run evs).queue).count y = (s.out ++ s.queue).count y + (evs.map Prod.snd).count y := by
+  induction evs generalizing s with
+  | nil => simp [TEp.run]
+  | cons e evs ih =>
+    simp only [List.length_cons] at h
+    have h1 := TEp.send_count s e.1 e.2 y (by omega)
+    have h2 := TEp.send_queue_len s e.1 e.2 (by omega)
+    have := ih (s.send e.1 e.2) (by omega)
+    simp only [TEp.run, List.foldl_cons, List.map_cons, List.count_cons] at this ⊢
+    simp only [List.count_cons, List.count_nil] at h1
+    rw [this, h1]; omega
+
+/-! ### exit socket: every datagram is (to be) sent to the address it was handed over with — the resolved host, ITS port -/
+
+/-- every item in `out`/`queue` is an expected (datagram, address) pair of `E`, every pending item resolves to one -/
+def XSock.faithful (dns : Nat → Nat) (E : List XItem) (s : XSock) : Prop :=
+  (∀ x ∈ s.out ++ s.queue, x ∈ E) ∧ (∀ x ∈ s.pending, (x.1, (dns x.2.1, x.2.2)) ∈ E)
+
+theorem mem_pushCap (x y : XItem) (q : List XItem) (h : y ∈ pushCap x q) : y = x ∨ y ∈ q := by
+  unfold pushCap at h
+  split at h
+  · simp only [List.mem_append, List.mem_singleton] at h
+    rcases h with h | h
+    · exact Or.inr (List.mem_of_mem_drop h)
+    · exact Or.inl h
+  · simp only [List.mem_append, List.mem_singleton] at h
+    rcases h with h | h
+    · exact Or.inr h
+    · exact Or.inl h
+
+theorem XSock.sendIp_faithful (dns : Nat → Nat) (E : List XItem) (s : XSock) (i : Nat) (a : Nat × Nat)
+    (h : s.faithful dns E) (hx : (i, a) ∈ E) : (s.sendIp i a).faithful dns E := by
+  obtain ⟨h1, h2⟩ := h
+  unfold XSock.sendIp
+  split
+  · refine ⟨?_, h2⟩
+    intro x hxm
+    simp only [List.mem_append, List.mem_singleton] at hxm
+    rcases hxm with (hxm | hxm) | hxm
+    · exact h1 x (by simp [hxm])
+    · subst hxm; exact hx
+    · exact h1 x (by simp [hxm])
+  · refine ⟨?_, h2⟩
+    intro x hxm
+    simp only [List.mem_append] at hxm
+    rcases hxm with hxm | hxm
+    · exact h1 x (by simp [hxm])
+    · rcases mem_pushCap _ _ _ hxm with rfl | hq
+      · exact hx
+      · exact h1 x (by simp [hq])
+
+theorem XSock.faithful_mono (dns : Nat → Nat) (E E' : List XItem) (s : XSock) (h : s.faithful dns E) (hs : ∀ x ∈ E, x ∈ E') :
+    s.faithful dns E' :=
+  ⟨fun x hx => hs _ (h.1 x hx), fun x hx => hs _ (h.2 x hx)⟩
+
+theorem XSock.step_faithful (dns : Nat → Nat) (E : List XItem) (s : XSock) (ev : XEv) (h : s.faithful dns E) :
+    (s.step dns ev).faithful dns (E ++ ev.expected dns) := by
+  have hm := XSock.faithful_mono dns E (E ++ ev.expected dns) s h (fun x hx => by simp [hx])
+  cases ev with
+  | send i d =>
+    cases d with
+    | ip a p => exact XSock.sendIp_faithful dns _ s i (a, p) hm (by simp [XEv.expected])
+    | name hh p =>
+      refine ⟨hm.1, ?_⟩
+      intro x hx
+      simp only [XSock.step, List.mem_append, List.mem_singleton] at hx
+      rcases hx with hx | hx
+      · exact hm.2 x hx
+      · subst hx; simp [XEv.expected]
+  | resolved =>
+    simp only [XSock.step]
+    split
+    · exact hm
+    · rename_i i hh p r hp
+      have hx : (i, (dns hh, p)) ∈ E ++ XEv.expected dns .resolved := hm.2 (i, (hh, p)) (by simp [hp])
+      refine XSock.sendIp_faithful dns _ _ i (dns hh, p) ⟨hm.1, ?_⟩ hx
+      intro x hxm
+      exact hm.2 x (by simp [hp, hxm])
+  | transportsReady =>
+    refine ⟨?_, hm.2⟩
+    intro x hx
+    simp only [XSock.step, List.append_nil, List.mem_append] at hx
+    exact hm.1 x (by simp only [List.mem_append]; exact hx)
+
+theorem XSock.run_faithful (dns : Nat → Nat) (evs : List XEv) (E : List XItem) (s : XSock) (h : s.faithful dns E) :
+    (s.run dns evs).faithful dns (E ++ evs.flatMap (XEv.expected dns)) := by
+  induction evs generalizing s E with
+  | nil => simpa [XSock.run] using h
+  | cons ev evs ih =>
+    have := ih (E ++ ev.expected dns) (s.step dns ev) (XSock.step_faithful dns E s ev h)
+    simpa [XSock.run, List.append_assoc] using this
 
 end Ipv8.C04
